@@ -428,7 +428,9 @@ HPanic ==
 Put(f, k, v) == [x \in DOMAIN f \cup {k} |-> IF x = k THEN v ELSE f[x]]
 Del(f, k) == [x \in DOMAIN f \ {k} |-> f[x]]
 
-StOids(st) == IF "toks" \in DOMAIN st THEN [i \in 1..CountParams(st.toks) |-> 0] ELSE st.oids
+\* the parameter types a statement declares: what ParseParameters finds in its text when the handler uses it
+\* ("toks"), unless the handler declares nothing at all ("nodeclare": the markers in the text are its own business)
+StOids(st) == IF "toks" \in DOMAIN st /\ "nodeclare" \notin DOMAIN st THEN [i \in 1..CountParams(st.toks) |-> 0] ELSE st.oids
 
 ExtFail(e) == emit' = <<Rv(e)>> /\ skip' = TRUE
 ExtFailP(pre, e) == emit' = pre \o <<Rv(e)>> /\ skip' = TRUE
